@@ -474,6 +474,11 @@ func (r *Run) finish() int {
 			}
 		}
 	}
+	if len(r.samples) == 0 {
+		msg := "no sample case was recorded (evidence would be invalid)"
+		r.inconcl = append(r.inconcl, msg)
+		fmt.Printf("INCONCLUSIVE property=%s %s\n", r.Prop, msg)
+	}
 	if r.evals == 0 || len(r.distinct) < 2 {
 		msg := fmt.Sprintf("observed too little: evaluations=%d distinct=%d", r.evals, len(r.distinct))
 		r.inconcl = append(r.inconcl, msg)
